@@ -2575,6 +2575,10 @@ class SliceDataset(Dataset):
     def keys(self):
         if self._keys is None:
             keys = self.input_dataset.keys()
+            if len(self.slice) == 0:
+                # itemgetter needs at least one argument.
+                self._keys = ()
+                return self._keys
             # itemgetter makes the same as
             # "tuple([keys[i] for i in self.slice])"
             # but is 10 times faster
